@@ -453,3 +453,35 @@ def local_defs(fn, vid):
         elif ev.get("k") == "un" and ev.get("op") in ("++", "--") and isinstance(strip_casts(ev.get("e")), dict) and strip_casts(ev.get("e")).get("vid") == vid:
             out.append((pos, None, ev["op"]))
     return out
+
+
+def iteration_avoiding(fn, header, body, stop_block_pred):
+    """Is there a path header -> (through body) -> header, i.e. one loop iteration, that passes no
+    block for which stop_block_pred(block_id) is true? Returns the block path or None."""
+    from collections import deque
+    start = [s for s in fn.succs(header) if s in body and s != header]
+    seen = set()
+    prev = {}
+    dq = deque()
+    for s in start:
+        if not stop_block_pred(s):
+            seen.add(s)
+            prev[s] = header
+            dq.append(s)
+    while dq:
+        b = dq.popleft()
+        for s in fn.succs(b):
+            if s == header:
+                path = [header, b]
+                while path[-1] in prev and prev[path[-1]] != header:
+                    path.append(prev[path[-1]])
+                return [header] + list(reversed(path[1:])) + [header]
+            if s in body and s not in seen and not stop_block_pred(s):
+                seen.add(s)
+                prev[s] = b
+                dq.append(s)
+    return None
+
+
+def block_has(fn, b, pred):
+    return any(pred(Pos(b, i), e) for i, e in enumerate(fn.blocks[b]["elems"]))
